@@ -55,12 +55,17 @@ def mid(text, kind, **kw):
 
 
 def depths(prog):
-    """nesting depth of every statement (opener at depth d, body at d+1)."""
+    """nesting depth of every statement (opener at depth d, body at d+1); a
+    closer tagged 'sharedN' terminates N labelled DO loops at once"""
     d = 0
     out = []
     for s in prog:
         if s.role == "close":
-            d -= 1
+            n = 1
+            for t in s.tags:
+                if t.startswith("shared"):
+                    n = int(t[6:])
+            d -= n
             out.append(d)
         elif s.role == "mid":
             out.append(d - 1)
@@ -310,6 +315,24 @@ def c_critical(body, ch, uid):
     )
 
 
+def c_do_shared_continue(body, ch, uid):
+    lab = str(100 + uid)
+    return (
+        [opener("do %s i%d = 1, n" % (lab, uid), "do_label"), opener("do %s j%d = 1, m" % (lab, uid), "do_label")]
+        + body
+        + [closer("continue", "continue_term", label=lab, tags=("shared2",))]
+    )
+
+
+def c_do_shared_action(body, ch, uid):
+    lab = str(100 + uid)
+    return (
+        [opener("do %s i%d = 1, n" % (lab, uid), "do_label"), opener("do %s j%d = 1, m" % (lab, uid), "do_label")]
+        + body
+        + [closer("b(j%d) = %d" % (uid, uid), "action_term", label=lab, tags=("shared2",))]
+    )
+
+
 EXEC_CONSTRUCTS = [
     ("if", c_if),
     ("do", c_do),
@@ -324,6 +347,8 @@ EXEC_CONSTRUCTS = [
     ("block", c_block),
     ("critical", c_critical),
     ("do_concurrent", c_do_concurrent),
+    ("do_shared_continue", c_do_shared_continue),
+    ("do_shared_action", c_do_shared_action),
 ]
 EXEC_BY_NAME = dict(EXEC_CONSTRUCTS)
 
@@ -447,7 +472,23 @@ def c_enum(ch, uid=1):
     return out
 
 
-SPEC_CONSTRUCTS = [("type", c_type_def), ("interface", c_interface), ("enum", c_enum)]
+def c_type_tbp(ch, uid=1):
+    """derived type with a type-bound procedure part (choice points reach the
+    binding details with one deviation)"""
+    tname = "tb%d" % uid
+    out = [opener("type :: %s" % tname, "type"), S("integer :: c1", "comp")]
+    out.append(S(ch.pick(["procedure(iface), pointer, nopass :: pc => null()", "procedure(iface), pointer, pass(self) :: pc", "procedure(), pointer, nopass :: pc", "real :: c2 = 1.0", "type(%s), pointer :: nxt => null()" % tname], "pcomp"), "proc_comp"))
+    out.append(mid("contains", "contains"))
+    if ch.flag("tb_private"):
+        out.append(S("private", "private"))
+    out.append(S(ch.pick(["procedure :: m1", "procedure, pass(self) :: m1 => impl1", "procedure, nopass, public :: m1", "procedure(iface), deferred :: m1", "procedure, non_overridable :: m1", "procedure m1", "procedure, pass, private :: m1"], "tbp"), "specific_binding"))
+    out.append(S(ch.pick(["generic :: g => m1", "generic, public :: operator(+) => m1", "generic :: assignment(=) => m1", "generic :: write(formatted) => m1", "generic :: operator(.dot.) => m1, m2", "generic, private :: g => m1, m2"], "generic"), "generic_binding"))
+    out.append(S(ch.pick(["final :: fin", "final fin, fin2", "final :: fin, fin2"], "final"), "final_binding"))
+    out.append(closer(ch.pick(["end type %s" % tname, "end type"], "endtype"), "end_type"))
+    return out
+
+
+SPEC_CONSTRUCTS = [("type", c_type_def), ("interface", c_interface), ("enum", c_enum), ("type_tbp", c_type_tbp)]
 
 
 # ------------------------------------------------------------ program units
